@@ -226,10 +226,12 @@ EXTRA2 = {
     "C09": " Bodies validPlus*: the expected document with ONE optional member of another JSON type (id_token as number / object / array / boolean ...).",
     "C10": " Fault kind canceled: the storage's error wraps context.Canceled while the request itself is alive.",
     "C11": " The receiving end: callbacks delivered to rp.CodeExchangeHandler by GET and by POST (form_post) are exchanged and hand the application its state "
-           "(rules C11.rp.* of spec/RP.tla, run here as well).",
+           "(rules C11.rp.* of spec/RP.tla, run here as well)." + FLOW_TEXT + "C11.flow.* (a relying party that asks for response_mode=form_post gets the code in an "
+           "auto-submitting form, the user agent POSTs it, and the application is handed the state it started with - a state full of characters that need escaping).",
     "C12": " RFC 3339 times with numeric offset and / or fraction; seal cases with an earlier opening of the same string under the right or a third key.",
     "C14": " Request objects carry PKCE parameters (rule C14.reqobj.pkce); dimension prior: the same verifier / provider accepted the OTHER client's assertion immediately before.",
-    "C15": " Rule C15.client.auth with a scripted matrix: after a success of the client, every other credential presentation.",
+    "C15": FLOW_TEXT + "C15.flow.* (tokenexchange.ExchangeToken with the session's access token: served exactly for a live subject token, issued_token_type names an access token). "
+           "Rule C15.client.auth with a scripted matrix: after a success of the client, every other credential presentation.",
     "C16": FLOW_TEXT + "C16.flow.* (rp.DeviceAuthorization / rp.DeviceAccessToken: tokens only for the approved flow, approving user's subject, requested scopes, ID token). "
            "The storage may report a user-code collision once (op.ErrDuplicateUserCode): the user code of the response is the one bound to the device code (C16.device.usercode).",
     "C17": FLOW_TEXT + "C17.flow.* (authorization URL accepted by the provider, callback bound to the browser's cookie, login CSRF refused without a token request, "
